@@ -352,6 +352,12 @@ class sequence_variables:
     for n in statistic_names:
         special_prefixes[n] = statistics
 
+    # methods computing '<prefix>-<name>' from the value of '<prefix>-index';
+    # other attributes of this object are not template variables
+    index_functions = frozenset((
+        'number', 'even', 'odd', 'letter', 'Letter', 'key', 'item',
+        'roman', 'Roman', 'length', 'query'))
+
     def __setitem__(self, key, value):
         self.data[key] = value
         if self.alt_prefix:
@@ -385,7 +391,7 @@ class sequence_variables:
             suffix = key[l_ + 1:]
             prefix = key[:l_]
 
-        if hasattr(self, suffix):
+        if suffix in self.index_functions:
             try:
                 v = data[prefix + '-index']
             except Exception:
